@@ -186,16 +186,17 @@ def extract(tree):
     if "janet_continue_signal(task.fiber,task.value,&res,task.sig)" not in loop1:
         raise ExtractError("janet_loop1: run phase not recognised")
     c["runFilter"] = bool(re.search(r"if\(task\.expected_sched_id!=task\.fiber->sched_id\)continue;.*janet_continue_signal", loop1))
-    m = re.search(r"while\(peek_timeout\(&to\)&&to\.when<=now\)\{pop_timeout\(0\);(.*?)\}while\(janet_vm\.spawn", loop1)
+    # the popped timer's local may have any name (`to` today)
+    m = re.search(r"while\(peek_timeout\(&(\w+)\)&&\1\.when<=(\w+)\)\{pop_timeout\(0\);(.*?)\}while\(janet_vm\.spawn", loop1)
     if not m:
         raise ExtractError("janet_loop1: timer phase `while (peek_timeout(&to) && to.when <= now)` not recognised")
-    tp = m.group(1)
-    if 'janet_cancel(to.fiber,janet_cstringv("deadline expired"))'.replace(" ", "") not in tp.replace(" ", "") and "deadlineexpired" not in tp:
+    tv, tp = re.escape(m.group(1)), m.group(3)
+    if "deadlineexpired" not in tp or not re.search(r"janet_cancel\(%s\.fiber," % tv, tp):
         raise ExtractError("janet_loop1: deadline cancellation not recognised")
-    c["deadlineChecks"] = bool(re.search(r"if\(to\.curr_fiber!=NULL\)\{if\(janet_fiber_can_resume\(to\.curr_fiber\)\)\{janet_cancel\(to\.fiber", tp))
-    if "janet_schedule(to.fiber,janet_wrap_nil())" not in tp:
+    c["deadlineChecks"] = bool(re.search(r"if\(%s\.curr_fiber!=NULL\)\{if\(janet_fiber_can_resume\(%s\.curr_fiber\)\)\{janet_cancel\(%s\.fiber" % (tv, tv, tv), tp))
+    if not re.search(r"janet_schedule\(%s\.fiber,janet_wrap_nil\(\)\)" % tv, tp):
         raise ExtractError("janet_loop1: timeout scheduling not recognised")
-    c["timerCheck"] = bool(re.search(r"else\{if\(to\.fiber->sched_id==to\.sched_id\)\{if\(to\.is_error\)\{janet_cancel\(to\.fiber,.*?\}else\{janet_schedule\(to\.fiber,janet_wrap_nil\(\)\);\}\}\}", tp))
+    c["timerCheck"] = bool(re.search(r"else\{if\((?:%s\.fiber->sched_id==%s\.sched_id|%s\.sched_id==%s\.fiber->sched_id)\)\{if\(%s\.is_error\)\{janet_cancel\(%s\.fiber,.*?\}else\{janet_schedule\(%s\.fiber,janet_wrap_nil\(\)\);\}\}\}" % ((tv,) * 7), tp))
     push = sq(body(ev, "janet_channel_push_with_lock"))
     if "janet_q_pop(&channel->read_pending,&reader,sizeof(reader))" not in push:
         raise ExtractError("janet_channel_push_with_lock: pop of read_pending not recognised")
@@ -206,7 +207,8 @@ def extract(tree):
     c["popSkipsStale"] = bool(re.search(r"do\{(\w+)=janet_q_pop\(&channel->write_pending,&writer,sizeof\(writer\)\);\}while\(!\1&&\(writer\.sched_id!=writer\.fiber->sched_id\)\);", pop))
     c["closeChecks"] = close_checks(ev)
     pcb = sq(body(osc, "janet_proc_wait_cb"))
-    if "janet_schedule(args.fiber,janet_wrap_integer(status))" not in pcb:
+    msched = re.search(r"janet_schedule\(args\.fiber,janet_wrap_integer\(\w+\)\)", pcb)
+    if not msched:
         raise ExtractError("janet_proc_wait_cb: schedule not recognised")
     if "uint32_tsched_id=(uint32_t)args.argi;" not in pcb:
         raise ExtractError("janet_proc_wait_cb: the recorded generation is no longer read from args.argi")
@@ -218,7 +220,7 @@ def extract(tree):
             raise ExtractError("janet_proc_wait_cb: `%s` not recognised" % stmt)
         conds = path_conditions(pcb, k)
         return any(gen_test in cd and not cd.startswith("!(") and "||" not in cd for cd in conds)
-    c["procCheck"] = guarded("janet_schedule(args.fiber,janet_wrap_integer(status))")
+    c["procCheck"] = guarded(msched.group(0))
     c["procErrCheck"] = guarded("janet_cancel(args.fiber,")
     if "targs.argi=(uint32_t)targs.fiber->sched_id;" not in sq(osc):
         raise ExtractError("os_proc_wait_impl: generation not recorded in the threaded call")
